@@ -1,6 +1,7 @@
 //! C02 harness: parsing is total and yields in-bounds, consistent syntax.
 //!
 //! usage: c02 gen <seed> <tier> <cases_out>          generate inputs (one per line: `<class> <hex of UTF-8>`)
+//!        c02 genstack <tier> <cases_out>            the recursion-depth stream for the unoptimised build
 //!        c02 work <cases> <out> <start> <end> [<stride> <offset>]   run the oracle on the cases i in [start,end) with
 //!                                                    i % stride == offset (a child of the watchdog)
 //!        c02 expand <recipe>                        print the text of a recipe case (`@nest:..`, `@chain:..`, `@nestproc,n`, `@nestfunc,n`)
@@ -1317,6 +1318,23 @@ fn shape_text(recipe: &str) -> String {
     } else if let Some(name) = f[0].strip_prefix("chain:") {
         let (_, pre, link, suf) = CHAIN_SHAPES.iter().find(|x| x.0 == name).unwrap();
         format!("{}{}{}", pre, link.repeat(n), suf)
+    } else if let Some(style) = f[0].strip_prefix("regions:") {
+        // n consecutive ignored regions (finding F58 / b8a07ee: Tokenizer::pop must loop, not recurse)
+        let unit = match style {
+            // closed by a trailing comment on the only token's line, no real token in between
+            "trailing" => "-- vhdl_ls off\nx -- vhdl_ls on\n",
+            // closed by a trailing comment on the line of a later token of the region
+            "trailing_later" => "-- vhdl_ls off\ny z\nx -- vhdl_ls on\n",
+            // closed by a comment on a line of its own (leading comment of the next token)
+            "own_line" => "-- vhdl_ls off\nx\n-- vhdl_ls on\n",
+            // a real token between the regions
+            "token_between" => "-- vhdl_ls off\nx -- vhdl_ls on\n;\n",
+            // with explanations and block comments
+            "explained" => "-- vhdl_ls off: generated\nx ( -- vhdl_ls on (end)\n",
+            "block" => "/* vhdl_ls off */ x -- vhdl_ls on\n",
+            _ => panic!("unknown region style {}", style),
+        };
+        format!("{}entity e is end;\n", unit.repeat(n))
     } else if f[0] == "nestproc" {
         // procedure q (procedure q (a : integer; procedure q (a : integer; ...   (unclosed; finding F54, fixed by a41ca14)
         format!("package p is procedure q ( procedure q ( {}", "a : integer ; procedure q ( ".repeat(n))
@@ -1337,6 +1355,64 @@ fn shape_text(recipe: &str) -> String {
     } else {
         panic!("unknown recipe {}", recipe)
     }
+}
+
+/// The `stack` stream: recursion-depth classes, run by an UNOPTIMISED build of vhdl_lang (no tail calls, large
+/// frames) on bounded stacks: runs of ignored regions, deep nesting, iterative chains.
+fn genstack(tier: &str, out_path: &str) {
+    let with_chain = tier.contains("+chain");
+    let thorough = tier.starts_with("thorough");
+    let mut f = std::io::BufWriter::new(std::fs::File::create(out_path).unwrap());
+    let mut emit = |class: String, recipe: String| {
+        writeln!(f, "{}@2m @{}", class, recipe).unwrap();
+        writeln!(f, "{}@8m @{}", class, recipe).unwrap();
+    };
+    for style in ["trailing", "trailing_later", "own_line", "token_between", "explained", "block"] {
+        let sizes: &[usize] = if thorough { &[10, 1000, 50000, 200000, 1000000] } else { &[10, 1000, 50000] };
+        for n in sizes {
+            emit(format!("regions/{}/{}", style, n), format!("regions:{},{}", style, n));
+        }
+        if !thorough && style.starts_with("trailing") {
+            emit(format!("regions/{}/{}", style, 200000), format!("regions:{},{}", style, 200000));
+        }
+    }
+    drop(emit);
+    // nesting: on a 64 MiB thread — at opt-level 0 the frames of the recursive-descent cycle are so large that the 256
+    // levels of the nesting limit do not fit 2 MiB for any shape (100 nested `if`, 50 nested blocks overflow it) nor
+    // 8 MiB for nested block / generate statements (observed on 30e5700.., reported to the coordinator); 20000 levels
+    // without the limit would need > 200 MiB
+    for (name, ..) in NEST_SHAPES.iter() {
+        for (n, cu) in [(200usize, "c"), (20000, "u")] {
+            if thorough || n == 200 || !name.starts_with("external_") {
+                writeln!(f, "deep/{}/{}/{}@64m @nest:{},{},{}", name, n, cu, name, n, cu).unwrap();
+            }
+        }
+        if thorough {
+            writeln!(f, "deep/{}/20000/c@64m @nest:{},20000,c", name, name).unwrap();
+        }
+    }
+    let mut emit = |class: String, recipe: String| {
+        writeln!(f, "{}@2m @{}", class, recipe).unwrap();
+        writeln!(f, "{}@8m @{}", class, recipe).unwrap();
+    };
+    for (name, ..) in CHAIN_SHAPES.iter() {
+        for n in [100usize, 500] {
+            emit(format!("long_chain/{}/{}", name, n), format!("chain:{},{}", name, n));
+        }
+        if with_chain {
+            for n in [4000usize, 20000] {
+                emit(format!("long_chain/{}/{}", name, n), format!("chain:{},{}", name, n));
+            }
+        }
+    }
+    for n in [10usize, 100] {
+        emit(format!("nested_interface_subprogram_unclosed/{}", n), format!("nestproc,{}", n));
+        emit(format!("nested_interface_subprogram_balanced/{}", n), format!("nestfunc,{}", n));
+    }
+    drop(emit);
+    // beyond the nesting limit: 64 MiB thread (see above)
+    writeln!(f, "nested_interface_subprogram_unclosed/300@64m @nestproc,300").unwrap();
+    writeln!(f, "nested_interface_subprogram_balanced/300@64m @nestfunc,300").unwrap();
 }
 
 fn gen(seed: u64, tier: &str, out_path: &str) {
@@ -1829,11 +1905,19 @@ fn work(cases: &str, out_path: &str, start: usize, end: usize, stride: usize, of
         // `B <index> <bytes>`: the watchdog scales its CPU limit with the size of the input
         writeln!(out, "B {} {}", i, input.len()).unwrap();
         out.flush().unwrap();
-        let res = if class.ends_with("@2m") {
-            // the stack size of rayon / std worker threads
+        let stack = if class.ends_with("@2m") {
+            Some(2usize << 20) // the stack size of rayon / std worker threads
+        } else if class.ends_with("@8m") {
+            Some(8usize << 20)
+        } else if class.ends_with("@64m") {
+            Some(64usize << 20)
+        } else {
+            None
+        };
+        let res = if let Some(stack) = stack {
             std::thread::scope(|sc| {
                 std::thread::Builder::new()
-                    .stack_size(2 << 20)
+                    .stack_size(stack)
                     .spawn_scoped(sc, || oracle(&parser, &input))
                     .unwrap()
                     .join()
@@ -2122,6 +2206,7 @@ fn main() {
     let a: Vec<String> = std::env::args().collect();
     match a.get(1).map(|s| s.as_str()) {
         Some("gen") => gen(a[2].parse().unwrap(), &a[3], &a[4]),
+        Some("genstack") => genstack(&a[2], &a[3]),
         Some("work") => work(
             &a[2],
             &a[3],
